@@ -457,7 +457,12 @@ func (c connectStreamClientProtocol) encodeEnd(op *operation, end *responseEnd, 
 	length := buffer.Len()
 	limit := op.methodConf.maxMsgBufferBytes
 	if length > int(limit) {
-		return nil
+		// The end (error message, details, metadata) is too large to send.
+		// The stream must still be terminated by an end-of-stream frame, so
+		// send a small one that says what happened.
+		buffer.Reset()
+		buffer.WriteString(`{"error": {"code": "resource_exhausted", "message": ` +
+			strconv.Quote(fmt.Sprintf("end of stream is %d bytes, exceeds max buffer size (%d)", length, limit)) + `}}`)
 	}
 	env := envelope{trailer: true, length: uint32(buffer.Len())} //nolint:gosec // Length is validated above.
 	envBytes := c.encodeEnvelope(env)
